@@ -238,7 +238,7 @@ def run_spec(spec):
             out.update(result="violation", cex=cex, stats=E.stats)
             return out
     out["stats"] = E.stats
-    if out["result"] == "holds":
+    if out["result"] in ("holds", "inconclusive"):
         U.validate_native(E, paths, lv, lambda vals: concrete_check(spec, vals, w), out, nmax=1)
     return out
 
